@@ -142,3 +142,30 @@ pub fn tplcase(c: &J) -> J {
     });
     json!({"id": c["id"], "tpl": tpl, "al": alnum_flags(&tpl), "vals": c["vals"], "lits": lits, "obs": obs})
 }
+
+/// C01/C02/C07/C08/C09: {"id","stmt":{kind,calls}} -> every rendering entry point on every
+/// backend, the SqlWriter event stream, inject_parameters, `==` before/after rendering.
+pub fn stmtcase(c: &J) -> J {
+    use crate::render::observe;
+    let built = guarded(|| {
+        let s = stmt::any(&c["stmt"]);
+        let before = stmt::any(&c["stmt"]);
+        let mut o = observe(&s, true);
+        o["eq_after"] = json!(stmt::any_eq(&s, &before));
+        // statement unchanged by rendering; inject_parameters of the build
+        for b in ["mysql", "pg", "sqlite"] {
+            if let Some(r) = o[b].get_mut("r") {
+                let sql = r["sql"].as_str().unwrap_or("").to_string();
+                let vals: Vec<Value> = r["values"].as_array().map(|v| v.iter().map(crate::val::to_value).collect()).unwrap_or_default();
+                let inj = guarded(|| match b {
+                    "mysql" => json!(inject_parameters(&sql, vals.clone(), &MysqlQueryBuilder)),
+                    "pg" => json!(inject_parameters(&sql, vals.clone(), &PostgresQueryBuilder)),
+                    _ => json!(inject_parameters(&sql, vals.clone(), &SqliteQueryBuilder)),
+                });
+                r["inject"] = inj;
+            }
+        }
+        o
+    });
+    json!({"id": c["id"], "stmt": c["stmt"], "obs": built})
+}
